@@ -120,7 +120,16 @@ class CaptureStdout:
         sys.stdout = io.TextIOWrapper(os.fdopen(os.dup(1), "wb"), encoding="utf-8", errors="replace",
                                       write_through=True)
         self.text = ""
+        self.marked = None
         return self
+
+    def mark(self):
+        """remember how much has been written so far (text_at_mark after the capture ends)"""
+        try:
+            sys.stdout.flush()
+        except Exception:  # noqa: BLE001
+            pass
+        self.marked = os.fstat(self._tmp.fileno()).st_size
 
     def __exit__(self, *a):
         try:
@@ -132,6 +141,8 @@ class CaptureStdout:
         os.dup2(self._saved, 1)
         os.close(self._saved)
         self._tmp.seek(0)
-        self.text = self._tmp.read().decode("utf-8", errors="replace")
+        raw = self._tmp.read()
+        self.text = raw.decode("utf-8", errors="replace")
+        self.text_at_mark = self.text if self.marked is None else raw[:self.marked].decode("utf-8", errors="replace")
         self._tmp.close()
         return False
